@@ -276,6 +276,9 @@ type observation struct {
 	LocalOut   int           `json:"stdout_bytes_at_restart"`
 	Notes      []string      `json:"notes,omitempty"`
 	Results2   string        `json:"results_after_second_restart"`
+	Disk       *view         `json:"record_on_disk,omitempty"` // the status file once nothing writes any more
+	DiskOut    int           `json:"stdout_bytes_on_disk"`
+	HeldState  int           `json:"record_state_when_runner_held"`
 	Residents  []residentObs `json:"residents,omitempty"`
 }
 
